@@ -134,32 +134,75 @@ func (u *ufac) group(parent map[string]any, kidsKey string, depth int, forceB bo
 		}
 		c := cands[r.Intn(len(cands))]
 		n := c.node
-		switch cstr(n, "k") {
-		case "leaf":
-			if d, ok := n["dflt"].(string); ok && r.Bool() {
-				delete(n, "dflt")
-				refines = append(refines, map[string]any{"path": toAny(c.path), "prop": "default", "val": d})
-			} else if cbool(n, "mandatory") {
-				delete(n, "mandatory")
-				refines = append(refines, map[string]any{"path": toAny(c.path), "prop": "mandatory", "val": "true"})
+		if cbool(n, "_refined") {
+			continue // one refine per node: a second one would see what the first one left in the grouping
+		}
+		// the refined statement is either absent from the grouping, or written there with another argument
+		// (refine replaces it); the substatements of the target may be written in any order
+		repl := r.Bool()
+		before := len(refines)
+		if v, ok := n["config"].(bool); ok && !v && cstr(n, "k") != "case" && r.Chance(30) {
+			if repl {
+				n["config"] = true
+			} else {
+				delete(n, "config")
 			}
-		case "container":
-			if cbool(n, "presence") {
-				n["presence"] = false
-				refines = append(refines, map[string]any{"path": toAny(c.path), "prop": "presence", "val": "p"})
+			refines = append(refines, map[string]any{"path": toAny(c.path), "prop": "config", "val": "false"})
+		} else {
+			switch cstr(n, "k") {
+			case "leaf":
+				if d, ok := n["dflt"].(string); ok && r.Bool() {
+					delete(n, "dflt")
+					if repl {
+						for _, v := range carr(cmap(n, "type"), "valid") {
+							if v.(string) != d {
+								n["dflt"] = v
+								break
+							}
+						}
+					}
+					refines = append(refines, map[string]any{"path": toAny(c.path), "prop": "default", "val": d})
+				} else if cbool(n, "mandatory") {
+					delete(n, "mandatory")
+					if repl {
+						n["_mandFalse"] = true
+					}
+					refines = append(refines, map[string]any{"path": toAny(c.path), "prop": "mandatory", "val": "true"})
+				}
+			case "container":
+				if cbool(n, "presence") {
+					n["presence"] = repl
+					refines = append(refines, map[string]any{"path": toAny(c.path), "prop": "presence", "val": "p"})
+				}
+			case "list", "leaf-list":
+				if _, ok := n["min"]; ok && r.Bool() {
+					refines = append(refines, map[string]any{"path": toAny(c.path), "prop": "min-elements", "val": fmt.Sprint(cint(n, "min"))})
+					delete(n, "min")
+					if repl {
+						n["min"] = 0
+					}
+				} else if _, ok := n["max"]; ok {
+					refines = append(refines, map[string]any{"path": toAny(c.path), "prop": "max-elements", "val": fmt.Sprint(cint(n, "max"))})
+					mx := cint(n, "max")
+					delete(n, "max")
+					if repl {
+						n["max"] = mx + 1 + r.Intn(2)
+					}
+				}
+			case "choice":
+				if cbool(n, "mandatory") {
+					delete(n, "mandatory")
+					if repl {
+						n["_mandFalse"] = true
+					}
+					refines = append(refines, map[string]any{"path": toAny(c.path), "prop": "mandatory", "val": "true"})
+				}
 			}
-		case "list", "leaf-list":
-			if _, ok := n["min"]; ok && r.Bool() {
-				refines = append(refines, map[string]any{"path": toAny(c.path), "prop": "min-elements", "val": fmt.Sprint(cint(n, "min"))})
-				delete(n, "min")
-			} else if _, ok := n["max"]; ok {
-				refines = append(refines, map[string]any{"path": toAny(c.path), "prop": "max-elements", "val": fmt.Sprint(cint(n, "max"))})
-				delete(n, "max")
-			}
-		case "choice":
-			if cbool(n, "mandatory") {
-				delete(n, "mandatory")
-				refines = append(refines, map[string]any{"path": toAny(c.path), "prop": "mandatory", "val": "true"})
+		}
+		if len(refines) > before {
+			n["_refined"] = true
+			if r.Chance(65) {
+				n["_rot"] = r.Intn(7)
 			}
 		}
 	}
